@@ -122,6 +122,17 @@ def writer_model(ctx: Ctx):
             g3 = X.write_tree(h, d2)
             ctx.decide(serialize(g2) == serialize(g3), "R15.w", f"{site0}::G2==G3", "a further cycle reproduces the document",
                        "after one write/load cycle a further cycle changes the document: " + _first_diff(serialize(g2), serialize(g3)))
+            # what is written for a definition does not depend on what else was loaded and written in between (another
+            # document with another prefix and another namespace URI)
+            from ..xmlmodel import clone, clark, attach_nsmap
+            other = clone(g1a, rename=lambda t: clark("http://other.example/ns", split_tag(t)[1]), nsdecl={"custom": "http://other.example/ns"})
+            attach_nsmap(other)
+            d_other = X.load(h, other, "custom")
+            X.write_tree(h, d_other)
+            g3b = X.write_tree(h, d2)
+            ctx.decide(serialize(g3) == serialize(g3b), "R15.w", f"{site0}::W(D) unaffected by another document", "",
+                       "after another document (prefix `custom`, another namespace URI) was loaded and written, writing the same definition again gives "
+                       "different XML: " + _first_diff(serialize(g3), serialize(g3b)))
             g4 = X.write_tree(h, X.load(h, g3, "xtce"))
             ctx.decide(serialize(g3) == serialize(g4), "R15.w", f"{site0}::G3==G4", "", "the document keeps drifting: " + _first_diff(serialize(g3), serialize(g4)))
         except Raised as r:
